@@ -590,5 +590,9 @@ def reject_ops(kind):
         return [
             ("gap_width=501", lambda o: setattr(o.chart.plots[0], "gap_width", 501) if hasattr(type(o.chart.plots[0]), "gap_width") else (_ for _ in ()).throw(ValueError()), (ValueError,)),
             ("chart_style=49", lambda o: setattr(o.chart, "chart_style", 49), (ValueError,)),
+            # "points[idx]: IndexError if idx is out of range" (negative indices are out of range for this sequence)
+            ("points[-1].format", lambda o: o.chart.plots[0].series[0].points[-1].format, (IndexError,)),
+            ("points[len].marker", lambda o: o.chart.plots[0].series[0].points[len(o.chart.plots[0].series[0].points)].marker, (IndexError,)),
+            ("major_unit=-1", lambda o: setattr(o.chart.value_axis, "major_unit", -1), (ValueError,)),
         ]
     return []
